@@ -1124,10 +1124,10 @@ Lemma upd_m_same m :
 Proof. destruct m; reflexivity. Qed.
 
 Section Ops.
-  Context {T : Type} (tp : transport T cmsg resp) (fuel_of : @cstate T -> nat).
+  Context {T : Type}.
   Notation cstate := (@cstate T).
   Notation op := (@op T).
-  Implicit Types (s : cstate) (m : mst).
+  Implicit Types (s : cstate) (m : mst) (tp : transport T cmsg resp) (fuel_of : @Client.cstate T -> nat).
 
   Lemma mcore_refl m : mcore m m.
   Proof. constructor; reflexivity. Qed.
@@ -1163,7 +1163,7 @@ Section Ops.
     - rewrite (mc_now _ _ M). lia.
   Qed.
 
-  Lemma sim_clone_handle m s h :
+  Lemma sim_clone_handle tp fuel_of m s h :
     sim m s -> sim (rec_op (T:=T) m (CloneHandle h)) (fst (step tp fuel_of s (CloneHandle h))).
   Proof.
     intro S. cbn [rec_op step fst]. rewrite (sc_handles _ _ (sim_c _ _ S)).
@@ -1171,7 +1171,7 @@ Section Ops.
     eapply sim_env; try exact S; try reflexivity; cbn; try apply S; try lia.
   Qed.
 
-  Lemma sim_drop_handle m s h :
+  Lemma sim_drop_handle tp fuel_of m s h :
     sim m s -> sim (rec_op (T:=T) m (DropHandle h)) (fst (step tp fuel_of s (DropHandle h))).
   Proof.
     intro S. cbn [rec_op step fst]. rewrite (sc_handles _ _ (sim_c _ _ S)).
@@ -1180,7 +1180,7 @@ Section Ops.
     apply set_nth_b_eq.
   Qed.
 
-  Lemma sim_advance m s dt :
+  Lemma sim_advance tp fuel_of m s dt :
     sim m s -> sim (rec_op (T:=T) m (Advance dt)) (fst (step tp fuel_of s (Advance dt))).
   Proof.
     intro S. cbn [rec_op step fst].
@@ -1188,10 +1188,10 @@ Section Ops.
     f_equal. apply S.
   Qed.
 
-  Lemma sim_tr m s f : sim m s -> sim (rec_op (T:=T) m (Tr f)) (fst (step tp fuel_of s (Tr f))).
+  Lemma sim_tr tp fuel_of m s f : sim m s -> sim (rec_op (T:=T) m (Tr f)) (fst (step tp fuel_of s (Tr f))).
   Proof. intro S. cbn [rec_op step fst]. eapply sim_frame; try exact S; reflexivity. Qed.
 
-  Lemma sim_call m s h d tid smp body :
+  Lemma sim_call tp fuel_of m s h d tid smp body :
     sim m s -> sim (rec_op (T:=T) m (Call h d tid smp body)) (fst (step tp fuel_of s (Call h d tid smp body))).
   Proof.
     intros [C W D]. cbn [rec_op step fst]. rewrite (sc_handles _ _ C).
@@ -1420,7 +1420,7 @@ Section Ops.
     simC m s -> nth_error (calls s) i = None -> (length (m_calls m) <=? i)%nat = true.
   Proof. intros C H. apply nth_error_None in H. rewrite (sc_len _ _ C). lia. Qed.
 
-  Lemma sim_guard_close_op m s i :
+  Lemma sim_guard_close_op tp fuel_of m s i :
     sim m s -> sim (rec_op (T:=T) m (GuardClose i)) (fst (step tp fuel_of s (GuardClose i))).
   Proof.
     intro S. cbn [step fst rec_op].
@@ -1485,7 +1485,7 @@ Section Ops.
         * exact Dd.
   Qed.
 
-  Lemma sim_guard_cancel_op m s i :
+  Lemma sim_guard_cancel_op tp fuel_of m s i :
     sim m s -> sim (rec_op (T:=T) m (GuardCancel i)) (fst (step tp fuel_of s (GuardCancel i))).
   Proof.
     intro S. cbn [step fst rec_op].
@@ -1512,7 +1512,7 @@ Section Ops.
       + exact Dd.
   Qed.
 
-  Lemma sim_drop_call_op m s i :
+  Lemma sim_drop_call_op tp fuel_of m s i :
     sim m s -> sim (rec_op (T:=T) m (DropCall i)) (fst (step tp fuel_of s (DropCall i))).
   Proof.
     intro S. cbn [step fst rec_op].
@@ -1824,3 +1824,827 @@ Section Ops.
     - intros [= <- <-]. apply S1. discriminate.
   Qed.
 End Ops.
+
+(* ------------------------------------------------------------------------------------------ *)
+(* 7. the dispatch: steps of the micro-functions at the level of the relation *)
+Section DispatchM.
+  Context {T : Type}.
+  Notation cstate := (@cstate T).
+  Implicit Types (s : cstate) (m : mst).
+
+  (* in-flight entries / timers go away, oneshots receive justified values *)
+  Lemma sim_shrink m s s' :
+    sim m s -> calls s' = calls s -> waiters s' = waiters s -> queue s' = queue s ->
+    now s' = now s -> handles s' = handles s -> next_id s' = next_id s ->
+    (forall x, In x (inflight s') -> In x (inflight s)) ->
+    (forall x, In x (timers s') -> In x (timers s)) ->
+    (forall id v, sl_val (get_slot s' id) = Some v -> sl_val (get_slot s id) = Some v \/ just m id v) ->
+    sim m s'.
+  Proof.
+    intros [C W D] Ec Ew Eq En Eh Ei Hf Ht Hv. constructor.
+    - eapply simC_frame; eassumption.
+    - eapply winv_frame; eassumption.
+    - constructor; rewrite ?Ec, ?Eq; try apply D.
+      + intros id e Hin. apply (sd_inflight _ _ D), Hf, Hin.
+      + intros id w Hin. apply (sd_timers _ _ D), Ht, Hin.
+      + intros id o Hv'. destruct (Hv id o Hv') as [H|H]; [apply D, H|exact H].
+  Qed.
+
+  Lemma sim_slot_send m s id o : sim m s -> just m id o -> sim m (slot_send s id o).
+  Proof.
+    intros S J. eapply sim_shrink; [exact S|rewrite slot_send_alt; reflexivity..| | |].
+    - rewrite slot_send_alt. exact (fun x H => H).
+    - rewrite slot_send_alt. exact (fun x H => H).
+    - intros id' v Hv. apply slot_send_val in Hv. destruct Hv as [Hv|[-> ->]]; [left; exact Hv|right; exact J].
+  Qed.
+
+  Lemma sim_complete_request m s id o :
+    sim m s -> just m id o -> sim m (snd (complete_request s id o)).
+  Proof.
+    intros S J. unfold complete_request. destruct (alookup id (inflight s)); [|exact S]. cbn [snd].
+    eapply sim_shrink; [exact S|rewrite slot_send_alt; reflexivity..| | |].
+    - rewrite slot_send_alt. cbn [inflight set_slot upd_slots upd_if]. intros [k v] H.
+      apply In_aremove in H. tauto.
+    - rewrite slot_send_alt. cbn [timers set_slot upd_slots upd_if]. intros [k v] H.
+      apply In_aremove in H. tauto.
+    - intros id' v Hv. apply slot_send_val in Hv.
+      destruct Hv as [Hv|[-> ->]]; [left; exact Hv|right; exact J].
+  Qed.
+
+  (* the request of an in-flight entry was written with the entry's trace context *)
+  Definition cancellable m (id : N) (e : ifentry) : Prop :=
+    exists sr, In sr (m_sent m) /\ s_id sr = id /\ s_tc sr = if_tc e.
+
+  Lemma sim_cancel_request m s id :
+    sim m s -> sim m (snd (cancel_request s id)) /\
+               (forall e, fst (cancel_request s id) = Some e -> cancellable m id e).
+  Proof.
+    intro S. unfold cancel_request. destruct (alookup id (inflight s)) as [e|] eqn:E; cbn [fst snd].
+    - split.
+      + eapply sim_shrink; [exact S|reflexivity..| | |].
+        * cbn [inflight upd_if]. intros [k v] H. apply In_aremove in H. tauto.
+        * cbn [timers upd_if]. intros [k v] H. apply In_aremove in H. tauto.
+        * intros id' v Hv. left. exact Hv.
+      + intros e' [= <-]. apply alookup_in in E.
+        destruct (sd_inflight _ _ (sim_d _ _ S) _ _ E) as (sr & H1 & H2 & H3 & _).
+        exists sr. auto.
+    - split; [exact S|discriminate].
+  Qed.
+
+  Lemma min_timer_In l best r :
+    min_timer l best = Some r -> In r l \/ best = Some r.
+  Proof.
+    revert best. induction l as [|[id w] t IH]; intro best; cbn [min_timer].
+    - intro H. right; exact H.
+    - destruct best as [[bid bw]|].
+      + destruct ((w <? bw) || ((w =? bw) && (id <? bid))).
+        * intro H. destruct (IH _ H) as [H1|H1]; [left; right; exact H1|].
+          injection H1 as <-. left; left; reflexivity.
+        * intro H. destruct (IH _ H) as [H1|H1]; [left; right; exact H1|right; exact H1].
+      + intro H. destruct (IH _ H) as [H1|H1]; [left; right; exact H1|].
+        injection H1 as <-. left; left; reflexivity.
+  Qed.
+
+  Lemma sim_owner_unique m id i k i' k' :
+    call_with_id m id = Some (i, k) -> call_with_id m id = Some (i', k') -> i = i' /\ k = k'.
+  Proof. intros H1 H2. rewrite H1 in H2. injection H2 as -> ->. split; reflexivity. Qed.
+
+  Lemma sim_poll_expired m s : sim m s -> sim m (snd (poll_expired s)).
+  Proof.
+    intro S. unfold poll_expired.
+    destruct (min_timer (timers s) None) as [[id w]|] eqn:Em; [|exact S].
+    destruct (w <=? now s) eqn:Ew; [|exact S].
+    apply min_timer_In in Em. destruct Em as [Hin|]; [|discriminate].
+    cbn [inflight timers upd_if].
+    destruct (alookup id (inflight s)) as [e|] eqn:Ef; cbn [snd].
+    - eapply sim_shrink; [exact S|rewrite slot_send_alt; reflexivity..| | |].
+      + rewrite slot_send_alt. cbn [inflight set_slot upd_slots upd_if]. intros [k v] H.
+        apply In_aremove in H. tauto.
+      + rewrite slot_send_alt. cbn [timers set_slot upd_slots upd_if]. intros [k v] H.
+        apply In_aremove in H. tauto.
+      + intros id' v Hv. apply slot_send_val in Hv.
+        destruct Hv as [Hv|[-> ->]]; [left; exact Hv|right].
+        apply alookup_in in Ef.
+        destruct (sd_inflight _ _ (sim_d _ _ S) _ _ Ef) as (sr & H1 & H2 & _ & _ & H5).
+        destruct (sd_timers _ _ (sim_d _ _ S) _ _ Hin) as (i & k & Hk & Hw).
+        destruct (sd_sent _ _ (sim_d _ _ S) _ H1) as (i' & k' & Hk' & _ & _ & _ & Hdl & _).
+        rewrite H2 in Hk'. destruct (sim_owner_unique _ _ _ _ _ _ Hk Hk') as [<- <-].
+        cbn [just]. exists sr, i, k. repeat split; try assumption.
+        destruct Hw as [Hw|Hw]; [left; exact Hw|right].
+        rewrite (sc_now _ _ (sim_c _ _ S)). split; [lia|].
+        intros b tm q Hr Hq. specialize (H5 _ _ _ Hr). lia.
+    - eapply sim_shrink; [exact S|reflexivity..| | |].
+      + exact (fun x H => H).
+      + cbn [timers upd_if]. intros [k v] H. apply In_aremove in H. tauto.
+      + intros id' v Hv. left. exact Hv.
+  Qed.
+
+  (* ---- the request queue *)
+  (* a request that has been taken from the queue and not yet written: kept as a ghost head *)
+  Definition withq s (q : qitem) : cstate :=
+    upd_q s (permits s) (q :: queue s) (waiters s) (rx_closed s).
+
+  Lemma sim_withq_drop m s q : sim m (withq s q) -> sim m s.
+  Proof.
+    intros [C W D]. constructor.
+    - eapply simC_frame; [exact C|reflexivity..].
+    - eapply winv_frame; [exact W|reflexivity..].
+    - constructor; try apply D.
+      + intros q' Hin. apply (sd_queue _ _ D). right; exact Hin.
+      + pose proof (sd_queue_nodup _ _ D) as H. cbn in H. inversion H; assumption.
+      + intros q' sr Hin. apply (sd_queue_unsent _ _ D). right; exact Hin.
+      + intros i c Hc Hst. destruct (sd_staged _ _ D i c Hc Hst) as [H1 H2]. split; [|exact H2].
+        intros q' Hin. apply H1. right; exact Hin.
+  Qed.
+
+  Lemma release_permit_withq s q :
+    release_permit (withq s q) = withq (release_permit s) q.
+  Proof.
+    unfold release_permit, withq. cbn [waiters upd_q permits queue rx_closed].
+    destruct (waiters s) as [|w r]; [reflexivity|].
+    rewrite !set_phase_alt. reflexivity.
+  Qed.
+
+  Lemma sim_pop m s q r :
+    sim m s -> queue s = q :: r ->
+    sim m (withq (release_permit (upd_q s (permits s) r (waiters s) (rx_closed s))) q).
+  Proof.
+    intros S Eq. rewrite <- release_permit_withq. apply sim_release_permit.
+    eapply sim_sbc; [exact S|apply sbc_upd_q, sbc_upd_q, sbc_refl|reflexivity|reflexivity|].
+    cbn. symmetry. exact Eq.
+  Qed.
+
+  Lemma sim_q_poll_recv m s :
+    sim m s ->
+    match fst (q_poll_recv s) with
+    | RvSome q => sim m (withq (snd (q_poll_recv s)) q)
+    | _ => snd (q_poll_recv s) = s
+    end.
+  Proof.
+    intro S. unfold q_poll_recv. destruct (queue s) as [|q r] eqn:Eq.
+    - destruct (Nat.eqb (senders s) 0); [reflexivity|].
+      destruct (rx_closed s && Nat.eqb (assigned_count s) 0); reflexivity.
+    - cbn [fst snd]. apply sim_pop; assumption.
+  Qed.
+
+  (* ---- writing a request *)
+  Definition req_call (q : qitem) (r : sres) : tcall cmsg resp :=
+    CSend (MReq (q_id q) (q_deadline q) (q_tc q) (q_body q)) r.
+
+  Lemma just_sent_mono m m' id o :
+    m_polled m' = m_polled m -> m_calls m' = m_calls m ->
+    (forall x, In x (m_sent m) -> In x (m_sent m')) -> m_read m' = m_read m -> m_now m' = m_now m ->
+    just m id o -> just m' id o.
+  Proof.
+    intros Ep Ec Hs Er En. destruct o; cbn [just]; try exact (fun x => x).
+    - intros (sr & tm & q & H1 & H2 & H3 & H4). exists sr, tm, q. rewrite Er. auto.
+    - intros (sr & tm & q & H1 & H2 & H3 & H4). exists sr, tm, q. rewrite Er. auto.
+    - intros (sr & i & k & H1 & H2 & H3 & H4). exists sr, i, k. rewrite Er, En.
+      rewrite (call_with_id_eq m m' id Ep Ec). auto.
+  Qed.
+
+  Lemma req_of_eq m m' id dl tc b :
+    m_polled m' = m_polled m -> m_calls m' = m_calls m -> req_of m id dl tc b -> req_of m' id dl tc b.
+  Proof.
+    intros Ep Ec (i & k & H & R). exists i, k. rewrite (call_with_id_eq m m' id Ep Ec). auto.
+  Qed.
+
+  Lemma sim_send_request m s q r t f l :
+    sim m (withq s q) ->
+    sim (rec_call m (req_call q r))
+        (match r with
+         | SOk => upd_tr (insert_request s q) t f l
+         | SErr => snd (complete_request (upd_tr (insert_request s q) t f l) (q_id q) OSendErr)
+         end).
+  Proof.
+    intro Sq. pose proof (sim_withq_drop _ _ _ Sq) as S.
+    destruct Sq as [Cq _ Dq]. destruct S as [C W D].
+    set (m' := rec_call m (req_call q r)).
+    assert (Ep : m_polled m' = m_polled m) by apply rec_call_polled.
+    assert (Ec : m_calls m' = m_calls m) by apply rec_call_calls.
+    set (sr := {| s_id := q_id q; s_deadline := q_deadline q; s_tc := q_tc q; s_body := q_body q;
+                  s_ok := match r with SOk => true | SErr => false end;
+                  s_seq := S (m_seq m); s_time := m_now m |}).
+    assert (Es : m_sent m' = m_sent m ++ [sr]) by reflexivity.
+    assert (Er : m_read m' = m_read m) by reflexivity.
+    assert (Eq : m_seq m' = S (m_seq m)) by reflexivity.
+    assert (En : m_now m' = m_now m) by reflexivity.
+    assert (Hq : req_of m (q_id q) (q_deadline q) (q_tc q) (q_body q)).
+    { apply (sd_queue _ _ Dq). left; reflexivity. }
+    assert (Huns : forall x, In x (m_sent m) -> s_id x <> q_id q).
+    { intros x Hx. apply (sd_queue_unsent _ _ Dq q x); [left; reflexivity|exact Hx]. }
+    assert (Hnq : forall q', In q' (queue s) -> q_id q' <> q_id q).
+    { intros q' Hin He. pose proof (sd_queue_nodup _ _ Dq) as H. cbn in H. inversion H as [|? ? Hn _]; subst.
+      apply Hn. rewrite <- He. apply in_map, Hin. }
+    assert (S1 : sim m' (upd_tr (insert_request s q) t f l)).
+    { constructor.
+      - eapply simC_frame; [apply simC_rec_call, C|reflexivity..].
+      - eapply winv_frame; [exact W|reflexivity..].
+      - constructor; cbn [calls queue inflight timers upd_tr insert_request upd_if]; rewrite ?Es, ?Er, ?Eq, ?En.
+        + intros q' Hin. eapply req_of_eq; [exact Ep|exact Ec|]. apply (sd_queue _ _ D), Hin.
+        + apply D.
+        + intros q' x Hin Hx. apply in_app_or in Hx. destruct Hx as [Hx|[<-|[]]].
+          * eapply sd_queue_unsent; eassumption.
+          * cbn. intro He. apply (Hnq q' Hin). symmetry; exact He.
+        + intros i c Hc Hst. destruct (sd_staged _ _ Dq i c Hc Hst) as [H1 H2]. split.
+          * intros q' Hin. apply H1. right; exact Hin.
+          * intros x Hx. apply in_app_or in Hx. destruct Hx as [Hx|[<-|[]]]; [apply H2, Hx|].
+            cbn. intro He. apply (H1 q); [left; reflexivity|exact He].
+        + intros x Hx. eapply req_of_eq; [exact Ep|exact Ec|]. apply in_app_or in Hx.
+          destruct Hx as [Hx|[<-|[]]]; [apply (sd_sent _ _ D), Hx|exact Hq].
+        + rewrite map_app. cbn [map s_id sr]. apply NoDup_app_single; [apply D|].
+          intro Hin. apply in_map_iff in Hin. destruct Hin as (x & He & Hx). apply (Huns x Hx He).
+        + intros x Hx. apply in_app_or in Hx. destruct Hx as [Hx|[<-|[]]].
+          * destruct (sd_sent_seq _ _ D x Hx). split; lia.
+          * cbn. split; lia.
+        + intros id b tm k Hr. destruct (sd_read_seq _ _ D _ _ _ _ Hr). split; lia.
+        + intros id e Hin. apply In_aset in Hin. destruct Hin as [[-> ->]|[Hin Hne]].
+          * exists sr. cbn. split; [apply in_or_app; right; left; reflexivity|]. repeat split.
+            intros b tm k Hr. destruct (sd_read_seq _ _ D _ _ _ _ Hr). lia.
+          * destruct (sd_inflight _ _ D _ _ Hin) as (x & H1 & H2 & H3 & H4 & H5).
+            exists x. split; [apply in_or_app; left; exact H1|]. auto.
+        + intros id w Hin. apply In_aset in Hin. destruct Hin as [[-> ->]|[Hin Hne]].
+          * destruct Hq as (i & k & Hk & _ & _ & _ & Hdl & _). exists i, k.
+            rewrite (call_with_id_eq m m' (q_id q) Ep Ec). split; [exact Hk|].
+            apply call_with_id_inv in Hk. destruct Hk as (_ & _ & Hk).
+            pose proof (sc_created _ _ C _ _ Hk) as Hcr. rewrite (sc_now _ _ C) in Hcr.
+            unfold timer_instant. destruct (N.ltb_spec max_timeout_ms (k_rel k)); [left; assumption|right].
+            rewrite <- Hdl. lia.
+          * destruct (sd_timers _ _ D _ _ Hin) as (i & k & Hk & Hw). exists i, k.
+            rewrite (call_with_id_eq m m' id Ep Ec). auto.
+        + intros id o Hv. eapply just_sent_mono; try eassumption.
+          * rewrite Es. intros x Hx. apply in_or_app. left; exact Hx.
+          * apply (sd_slots _ _ D). exact Hv. }
+    destruct r; [exact S1|]. apply sim_complete_request; [exact S1|exact I].
+  Qed.
+
+  Lemma v18_send_request maxif m s q r :
+    sim m (withq s q) -> v18 (chk_call maxif m (req_call q r)) = true.
+  Proof.
+    intros [_ _ D]. unfold req_call. cbn [chk_call v18].
+    destruct (sd_queue _ _ D q (or_introl eq_refl)) as (i & k & Hk & H1 & H2 & H3 & H4 & H5).
+    rewrite Hk, H1, H2, H3, H4, H5, !N.eqb_refl, eqb_reflx. cbn [andb].
+    apply forallb_forall. intros x Hx. apply negb_true_iff, N.eqb_neq.
+    apply (sd_queue_unsent _ _ D q x); [left; reflexivity|exact Hx].
+  Qed.
+
+  (* ---- reading a response *)
+  Lemma sim_read_complete m s x :
+    sim m s -> sim (rec_call m (CNext (RItem x))) (complete s x).
+  Proof.
+    intros [C W D].
+    set (m' := rec_call m (CNext (RItem x))).
+    set (rd := (r_id x, r_body x, m_now m, S (m_seq m))).
+    assert (Ep : m_polled m' = m_polled m) by reflexivity.
+    assert (Ec : m_calls m' = m_calls m) by reflexivity.
+    assert (Es : m_sent m' = m_sent m) by reflexivity.
+    assert (Er : m_read m' = m_read m ++ [rd]) by reflexivity.
+    assert (Eq : m_seq m' = S (m_seq m)) by reflexivity.
+    assert (En : m_now m' = m_now m) by reflexivity.
+    assert (J : forall id o, just m id o -> just m' id o).
+    { intros id o. destruct o; cbn [just]; try exact (fun H => H).
+      - intros (sr & tm & q & H1 & H2 & H3 & H4). exists sr, tm, q. rewrite Er.
+        repeat split; try assumption. apply in_or_app; left; exact H3.
+      - intros (sr & tm & q & H1 & H2 & H3 & H4). exists sr, tm, q. rewrite Er.
+        repeat split; try assumption. apply in_or_app; left; exact H3.
+      - intros (sr & i & k & H1 & H2 & H3 & H4). exists sr, i, k. rewrite Er, En.
+        rewrite (call_with_id_eq m m' id Ep Ec). repeat split; try assumption.
+        destruct H4 as [H4|[H4 H5]]; [left; exact H4|right]. split; [exact H4|].
+        intros b tm q Hr Hq. apply in_app_or in Hr. destruct Hr as [Hr|[Hr|[]]]; [eapply H5; eassumption|].
+        unfold rd in Hr. injection Hr as _ _ <- _. exact H4. }
+    assert (Dm : forall s', calls s' = calls s -> queue s' = queue s ->
+               (forall id e, In (id, e) (inflight s') -> In (id, e) (inflight s) /\ id <> r_id x) ->
+               (forall y, In y (timers s') -> In y (timers s)) ->
+               (forall id v, sl_val (get_slot s' id) = Some v ->
+                             sl_val (get_slot s id) = Some v \/ just m' id v) -> simD m' s').
+    { intros s' Hc Hq Hf Ht Hv. constructor; rewrite ?Hc, ?Hq, ?Es, ?Er, ?Eq, ?En.
+      - intros q Hin. eapply req_of_eq; [exact Ep|exact Ec|]. apply (sd_queue _ _ D), Hin.
+      - apply D.
+      - apply D.
+      - apply D.
+      - intros sr Hin. eapply req_of_eq; [exact Ep|exact Ec|]. apply (sd_sent _ _ D), Hin.
+      - apply D.
+      - intros sr Hin. destruct (sd_sent_seq _ _ D sr Hin). split; lia.
+      - intros id b tm q Hr. apply in_app_or in Hr. destruct Hr as [Hr|[Hr|[]]].
+        + destruct (sd_read_seq _ _ D _ _ _ _ Hr). split; lia.
+        + unfold rd in Hr. injection Hr as _ _ <- <-. split; lia.
+      - intros id e Hin. destruct (Hf id e Hin) as [Hin0 Hne].
+        destruct (sd_inflight _ _ D _ _ Hin0) as (sr & H1 & H2 & H3 & H4 & H5).
+        exists sr. repeat split; try assumption.
+        intros b tm q Hr. apply in_app_or in Hr. destruct Hr as [Hr|[Hr|[]]]; [eapply H5; eassumption|].
+        unfold rd in Hr. injection Hr as He _ _ _. congruence.
+      - intros id w Hin. destruct (sd_timers _ _ D _ _ (Ht _ Hin)) as (i & k & Hk & Hw).
+        exists i, k. rewrite (call_with_id_eq m m' id Ep Ec). auto.
+      - intros id o Hv'. destruct (Hv id o Hv') as [H|H]; [apply J, (sd_slots _ _ D), H|exact H]. }
+    unfold complete, complete_request.
+    destruct (alookup (r_id x) (inflight s)) as [e|] eqn:Ef; cbn [snd].
+    - constructor.
+      + eapply simC_frame; [apply simC_rec_call, C|rewrite slot_send_alt; reflexivity..].
+      + eapply winv_frame; [exact W|rewrite slot_send_alt; reflexivity..].
+      + apply Dm; try (rewrite slot_send_alt; reflexivity).
+        * rewrite slot_send_alt. cbn [inflight set_slot upd_slots upd_if]. intros id e' Hin.
+          apply In_aremove in Hin. exact Hin.
+        * rewrite slot_send_alt. cbn [timers set_slot upd_slots upd_if]. intros [k v] Hin.
+          apply In_aremove in Hin. tauto.
+        * intros id v Hv. apply slot_send_val in Hv. destruct Hv as [Hv|[-> ->]]; [left; exact Hv|right].
+          apply alookup_in in Ef.
+          destruct (sd_inflight _ _ D _ _ Ef) as (sr & H1 & H2 & _).
+          destruct (sd_sent_seq _ _ D sr H1) as [Hsq _].
+          destruct (r_body x) as [v|k] eqn:Eb; cbn [just]; exists sr, (m_now m), (S (m_seq m));
+            rewrite Es, Er; (repeat split; [exact H1|exact H2| |lia]);
+            apply in_or_app; right; left; reflexivity.
+    - constructor.
+      + apply simC_rec_call, C.
+      + exact W.
+      + apply Dm; try reflexivity.
+        * intros id e Hin. split; [exact Hin|]. intros ->.
+          apply alookup_none_notin in Ef. apply Ef. apply (in_map fst) in Hin. exact Hin.
+        * exact (fun y H => H).
+        * intros id v Hv. left; exact Hv.
+  Qed.
+
+  (* ---- writing a cancellation *)
+  Lemma v18_cancel maxif m id e r :
+    cancellable m id e -> v18 (chk_call maxif m (CSend (MCancel id (if_tc e)) r)) = true.
+  Proof.
+    intros (sr & H1 & H2 & H3). cbn [chk_call v18]. apply existsb_exists. exists sr. split.
+    - unfold sent_with_id. apply filter_In. split; [exact H1|]. apply N.eqb_eq, H2.
+    - rewrite H3. unfold tctx_eqb. rewrite !N.eqb_refl, eqb_reflx. reflexivity.
+  Qed.
+
+  Lemma cancellable_rec_call m c id e : cancellable m id e -> cancellable (rec_call m c) id e.
+  Proof.
+    intros (sr & H1 & H2 & H3). exists sr. rewrite rec_call_sent. split; [apply in_or_app; left; exact H1|auto].
+  Qed.
+
+  (* ---- shutting down *)
+  Lemma fold_set_phase_alt p (l : list nat) s :
+    fold_left (fun acc w => set_phase acc w p) l s =
+    upd_calls s (fold_left (fun cl w => phase_calls cl w p) l (calls s)).
+  Proof.
+    revert s. induction l as [|w r IH]; intro s; cbn [fold_left].
+    - symmetry. apply upd_calls_same.
+    - rewrite IH, set_phase_alt. reflexivity.
+  Qed.
+
+  Lemma sim_close_waiters m (l : list nat) s :
+    sim m s -> waiters s = [] -> NoDup l ->
+    (forall w, In w l -> exists c, nth_error (calls s) w = Some c /\ c_phase c = PAcquiring) ->
+    sim m (upd_calls s (fold_left (fun cl w => phase_calls cl w PAcqClosed) l (calls s))).
+  Proof.
+    revert s. induction l as [|w r IH]; intros s S Ew Hnd Hl; cbn [fold_left].
+    - rewrite upd_calls_same. exact S.
+    - inversion Hnd as [|? ? Hn Hr]; subst.
+      destruct (Hl w (or_introl eq_refl)) as (c & Hc & Hp).
+      assert (S1 : sim m (upd_calls s (phase_calls (calls s) w PAcqClosed))).
+      { eapply (sim_active_step m s _ w c PAcqClosed); try exact S; try exact Hc; try reflexivity.
+        - rewrite Hp; reflexivity.
+        - discriminate.
+        - apply sbc_upd_calls, sbc_refl.
+        - cbn [waiters upd_calls]. rewrite Ew. intros w' [].
+        - cbn [waiters upd_calls]. rewrite Ew. constructor. }
+      specialize (IH _ S1). cbn [calls waiters upd_calls] in IH. apply IH; [exact Ew|exact Hr|].
+      intros w' Hin. destruct (Hl w' (or_intror Hin)) as (c' & Hc' & Hp'). exists c'. split; [|exact Hp'].
+      rewrite nth_error_phase_calls. destruct (Nat.eqb w w') eqn:E; [|exact Hc'].
+      apply Nat.eqb_eq in E. subst. contradiction.
+  Qed.
+
+  Lemma sim_q_close m s : sim m s -> sim m (q_close s).
+  Proof.
+    intro S. unfold q_close. destruct (rx_closed s); [exact S|].
+    rewrite fold_set_phase_alt. cbn [permits queue upd_calls].
+    assert (S0 : sim m (upd_q s (permits s) (queue s) [] (rx_closed s))).
+    { destruct S as [C W D]. constructor.
+      - eapply simC_frame; [exact C|reflexivity..].
+      - constructor; cbn [waiters upd_q]; [intros w []|constructor].
+      - eapply simD_frame; [exact D|reflexivity..]. }
+    pose proof (sim_close_waiters m (waiters s) _ S0 eq_refl (w_nodup _ (sim_w _ _ S))
+                                  (w_acq _ (sim_w _ _ S))) as S1.
+    eapply sim_sbc; [exact S1| |reflexivity..].
+    constructor; try reflexivity. apply same_vals_slots. reflexivity.
+  Qed.
+
+  Lemma sim_fold_slot_send m {A} (f : A -> N) (o : outcome) (l : list A) s :
+    (forall id, just m id o) -> sim m s -> sim m (fold_left (fun acc p => slot_send acc (f p) o) l s).
+  Proof.
+    intros J. revert s. induction l as [|a r IH]; intros s S; cbn [fold_left]; [exact S|].
+    apply IH. apply sim_slot_send; [exact S|apply J].
+  Qed.
+
+  Lemma sim_complete_all m s a : sim m s -> sim m (complete_all s (OConnErr a)).
+  Proof.
+    intro S. unfold complete_all. apply sim_fold_slot_send; [intro; exact I|].
+    eapply sim_shrink; [exact S|reflexivity..| | |].
+    - intros x [].
+    - intros x [].
+    - intros id v Hv. left; exact Hv.
+  Qed.
+End DispatchM.
+
+(* ------------------------------------------------------------------------------------------ *)
+(* 8. the dispatch: one lemma per micro-function, `dsim s -> dsim (snd (f s))` *)
+Section PlogFrames.
+  Context {T : Type}.
+  Notation cstate := (@cstate T).
+  Implicit Types (s : cstate).
+
+  Lemma plog_release_permit s : plog (release_permit s) = plog s.
+  Proof. unfold release_permit. destruct (waiters s); rewrite ?set_phase_alt; reflexivity. Qed.
+  Lemma plog_q_poll_recv s : plog (snd (q_poll_recv s)) = plog s.
+  Proof.
+    unfold q_poll_recv. destruct (queue s); cbn [snd].
+    - destruct (Nat.eqb (senders s) 0); [reflexivity|].
+      destruct (rx_closed s && Nat.eqb (assigned_count s) 0); reflexivity.
+    - rewrite plog_release_permit. reflexivity.
+  Qed.
+  Lemma plog_slot_send s id o : plog (slot_send s id o) = plog s.
+  Proof. rewrite slot_send_alt. reflexivity. Qed.
+  Lemma plog_complete_request s id o : plog (snd (complete_request s id o)) = plog s.
+  Proof.
+    unfold complete_request. destruct (alookup id (inflight s)); [|reflexivity].
+    cbn [snd]. rewrite plog_slot_send. reflexivity.
+  Qed.
+  Lemma plog_complete s x : plog (complete s x) = plog s.
+  Proof. apply plog_complete_request. Qed.
+  Lemma plog_cancel_request s id : plog (snd (cancel_request s id)) = plog s.
+  Proof. unfold cancel_request. destruct (alookup id (inflight s)); reflexivity. Qed.
+  Lemma plog_c_poll_recv s : plog (snd (c_poll_recv s)) = plog s.
+  Proof.
+    unfold c_poll_recv. destruct (cancels s); [|reflexivity].
+    destruct (Nat.eqb (senders s) 0); reflexivity.
+  Qed.
+  Lemma plog_poll_expired s : plog (snd (poll_expired s)) = plog s.
+  Proof.
+    unfold poll_expired. destruct (min_timer (timers s) None) as [[id w]|]; [|reflexivity].
+    destruct (w <=? now s); [|reflexivity].
+    destruct (alookup id (inflight (upd_if s (inflight s) (aremove id (timers s))))); cbn [snd];
+      rewrite ?plog_slot_send; reflexivity.
+  Qed.
+  Lemma plog_q_close s : plog (q_close s) = plog s.
+  Proof. unfold q_close. destruct (rx_closed s); [reflexivity|]. rewrite fold_set_phase_alt. reflexivity. Qed.
+  Lemma plog_fold_slot_send {A} (f : A -> N) o (l : list A) s :
+    plog (fold_left (fun acc p => slot_send acc (f p) o) l s) = plog s.
+  Proof.
+    revert s. induction l as [|a r IH]; intro s; cbn [fold_left]; [reflexivity|].
+    rewrite IH. apply plog_slot_send.
+  Qed.
+  Lemma plog_complete_all s o : plog (complete_all s o) = plog s.
+  Proof. unfold complete_all. rewrite plog_fold_slot_send. reflexivity. Qed.
+End PlogFrames.
+
+Section Dispatch.
+  Context {T : Type} (tp : transport T cmsg resp) (maxif : nat) (mb : mst).
+  Notation cstate := (@cstate T).
+  Implicit Types (s : cstate).
+
+  (* the observer after the transport calls logged so far in the poll in progress *)
+  Definition cur s : mst := mrun mb (plog s).
+
+  Record dsim s : Prop := {
+    ds_sim : sim (cur s) s;
+    ds_v18 : v18 (fst (chk_calls maxif mb (plog s))) = true }.
+
+  Lemma dsim_same_log s s' : dsim s -> plog s' = plog s -> sim (cur s) s' -> dsim s'.
+  Proof.
+    intros [H1 H2] E H. constructor; unfold cur in *; rewrite E; assumption.
+  Qed.
+
+  Lemma dsim_step s s' c :
+    dsim s -> plog s' = plog s ++ [c] -> sim (rec_call (cur s) c) s' ->
+    v18 (chk_call maxif (cur s) c) = true -> dsim s'.
+  Proof.
+    intros [H1 H2] E H V. constructor; unfold cur in *; rewrite E.
+    - rewrite mrun_snoc. exact H.
+    - rewrite chk_calls_snoc. cbn [vand v18]. rewrite H2, V. reflexivity.
+  Qed.
+
+  Lemma dsim_other s t f c :
+    dsim s -> sent_of (cur s) c = [] -> read_of (cur s) c = [] ->
+    v18 (chk_call maxif (cur s) c) = true -> dsim (upd_tr s t f (plog s ++ [c])).
+  Proof.
+    intros H Es Er V. eapply dsim_step; [exact H|reflexivity| |exact V].
+    eapply sim_frame; [apply sim_rec_other; [apply H|exact Es|exact Er]|reflexivity..].
+  Qed.
+
+  Lemma dsim_do_ready s : dsim s -> dsim (snd (do_ready tp s)).
+  Proof.
+    intro H. unfold do_ready. destruct (t_ready tp (tr s)) as [r t]. cbn [snd].
+    apply dsim_other; [exact H|reflexivity..].
+  Qed.
+  Lemma dsim_do_flush s : dsim s -> dsim (snd (do_flush tp s)).
+  Proof.
+    intro H. unfold do_flush. destruct (t_flush tp (tr s)) as [r t]. cbn [snd].
+    apply dsim_other; [exact H|reflexivity..].
+  Qed.
+  Lemma dsim_do_close s : dsim s -> dsim (snd (do_close tp s)).
+  Proof.
+    intro H. unfold do_close. destruct (t_close tp (tr s)) as [r t]. cbn [snd].
+    apply dsim_other; [exact H|reflexivity..].
+  Qed.
+
+  Lemma dsim_pump_read s : dsim s -> dsim (snd (pump_read tp s)).
+  Proof.
+    intro H. unfold pump_read, do_next. destruct (fused s); [exact H|].
+    destruct (t_next tp (tr s)) as [r t]. destruct r as [x| | |]; cbn [snd];
+      try (apply dsim_other; [exact H|reflexivity..]).
+    eapply dsim_step; [exact H|rewrite plog_complete; reflexivity| |reflexivity].
+    apply sim_read_complete. eapply sim_frame; [apply H|reflexivity..].
+  Qed.
+
+  Lemma dsim_ensure_writeable s : dsim s -> dsim (snd (ensure_writeable tp s)).
+  Proof.
+    intro H. unfold ensure_writeable.
+    destruct (do_ready tp s) as [r s1] eqn:E1. pose proof (dsim_do_ready s H) as H1.
+    rewrite E1 in H1. cbn [snd] in H1. destruct r; try exact H1.
+    destruct (do_flush tp s1) as [f s2] eqn:E2. pose proof (dsim_do_flush s1 H1) as H2.
+    rewrite E2 in H2. cbn [snd] in H2. destruct f; try exact H2.
+    destruct (do_ready tp s2) as [r2 s3] eqn:E3. pose proof (dsim_do_ready s2 H2) as H3.
+    rewrite E3 in H3. cbn [snd] in H3. destruct r2; exact H3.
+  Qed.
+
+  Lemma dsim_withq_drop s q : dsim (withq s q) -> dsim s.
+  Proof. intros [H1 H2]. constructor; [eapply sim_withq_drop; exact H1|exact H2]. Qed.
+
+  Lemma dsim_next_request_loop f s :
+    dsim s ->
+    match fst (next_request_loop f s) with
+    | PSome q => dsim (withq (snd (next_request_loop f s)) q)
+    | _ => dsim (snd (next_request_loop f s))
+    end.
+  Proof.
+    revert s. induction f as [|f IH]; intros s H; cbn [next_request_loop]; [exact H|].
+    pose proof (sim_q_poll_recv _ _ (ds_sim _ H)) as R. pose proof (plog_q_poll_recv s) as L.
+    destruct (q_poll_recv s) as [r s1]. cbn [fst snd] in R, L.
+    destruct r as [q| |]; cbn [fst snd]; try (subst s1; exact H).
+    assert (Hq : dsim (withq s1 q)).
+    { destruct H as [H1 H2]. constructor; unfold cur in *; cbn [plog withq upd_q]; rewrite L; assumption. }
+    destruct (sl_rx_closed (get_slot s1 (q_id q))); [|exact Hq].
+    apply IH. apply dsim_withq_drop in Hq.
+    eapply dsim_same_log; [exact Hq|reflexivity|].
+    eapply sim_sbc; [apply Hq|apply sbc_tx_drop, sbc_refl|reflexivity..].
+  Qed.
+
+  Lemma dsim_poll_next_request s :
+    dsim s ->
+    match fst (poll_next_request tp s) with
+    | PSome q => dsim (withq (snd (poll_next_request tp s)) q)
+    | _ => dsim (snd (poll_next_request tp s))
+    end.
+  Proof.
+    intro H. unfold poll_next_request. destruct (max_if s <=? length (inflight s))%nat; [exact H|].
+    destruct (ensure_writeable tp s) as [w s1] eqn:E1. pose proof (dsim_ensure_writeable s H) as H1.
+    rewrite E1 in H1. cbn [snd] in H1. destruct w; try exact H1.
+    apply dsim_next_request_loop, H1.
+  Qed.
+
+  Lemma dsim_poll_write_request s : dsim s -> dsim (snd (poll_write_request tp s)).
+  Proof.
+    intro H. unfold poll_write_request.
+    pose proof (dsim_poll_next_request s H) as H1.
+    destruct (poll_next_request tp s) as [r s1]. cbn [fst snd] in H1.
+    destruct r as [q| | |a]; try exact H1.
+    unfold do_send.
+    destruct (t_send tp (tr (insert_request s1 q)) (MReq (q_id q) (q_deadline q) (q_tc q) (q_body q)))
+      as [w t].
+    pose proof (sim_send_request (cur s1) s1 q w t (fused (insert_request s1 q))
+                  (plog (insert_request s1 q) ++ [req_call q w]) (ds_sim _ H1)) as S2.
+    pose proof (v18_send_request maxif (cur s1) s1 q w (ds_sim _ H1)) as V2.
+    apply dsim_withq_drop in H1.
+    destruct w; cbn [snd].
+    - eapply dsim_step; [exact H1|reflexivity|exact S2|exact V2].
+    - eapply dsim_step; [exact H1|rewrite plog_complete_request; reflexivity|exact S2|exact V2].
+  Qed.
+
+  Lemma dsim_next_cancel_loop f s :
+    dsim s ->
+    dsim (snd (next_cancel_loop f s)) /\
+    forall id e, fst (next_cancel_loop f s) = PSome (id, e) ->
+                 cancellable (cur (snd (next_cancel_loop f s))) id e.
+  Proof.
+    revert s. induction f as [|f IH]; intros s H; cbn [next_cancel_loop]; [split; [exact H|discriminate]|].
+    assert (H1 : dsim (snd (c_poll_recv s))).
+    { eapply dsim_same_log; [exact H|apply plog_c_poll_recv|].
+      unfold c_poll_recv. destruct (cancels s); [destruct (Nat.eqb (senders s) 0); apply H|].
+      eapply sim_frame; [apply H|reflexivity..]. }
+    destruct (c_poll_recv s) as [r s1]. cbn [snd] in H1.
+    destruct r as [id| |]; cbn [fst snd]; try (split; [exact H1|discriminate]).
+    pose proof (sim_cancel_request _ _ id (ds_sim _ H1)) as [S2 C2].
+    pose proof (plog_cancel_request s1 id) as L2.
+    destruct (cancel_request s1 id) as [e s2]. cbn [fst snd] in S2, C2, L2.
+    assert (H2 : dsim s2) by (eapply dsim_same_log; [exact H1|exact L2|exact S2]).
+    destruct e as [e|]; cbn [fst snd].
+    - split; [exact H2|]. intros id' e' [= <- <-]. unfold cur. rewrite L2. apply C2. reflexivity.
+    - apply IH, H2.
+  Qed.
+
+  Lemma dsim_poll_write_cancel s : dsim s -> dsim (snd (poll_write_cancel tp s)).
+  Proof.
+    intro H. unfold poll_write_cancel, poll_next_cancellation.
+    destruct (ensure_writeable tp s) as [w s1] eqn:E1. pose proof (dsim_ensure_writeable s H) as H1.
+    rewrite E1 in H1. cbn [snd] in H1. destruct w; try exact H1.
+    pose proof (dsim_next_cancel_loop (S (length (cancels s1))) s1 H1) as [H2 C2].
+    destruct (next_cancel_loop (S (length (cancels s1))) s1) as [r s2]. cbn [fst snd] in H2, C2.
+    destruct r as [[id e]| | |a]; try exact H2.
+    unfold do_send. destruct (t_send tp (tr s2) (MCancel id (if_tc e))) as [w t].
+    assert (H3 : dsim (upd_tr s2 t (fused s2) (plog s2 ++ [CSend (MCancel id (if_tc e)) w]))).
+    { apply dsim_other; [exact H2|reflexivity|reflexivity|]. apply v18_cancel, C2. reflexivity. }
+    destruct w; exact H3.
+  Qed.
+
+  Lemma dsim_poll_expired s : dsim s -> dsim (snd (poll_expired s)).
+  Proof.
+    intro H. eapply dsim_same_log; [exact H|apply plog_poll_expired|apply sim_poll_expired, H].
+  Qed.
+
+  Lemma dsim_pump_write s : dsim s -> dsim (snd (pump_write tp s)).
+  Proof.
+    intro H. unfold pump_write.
+    destruct (poll_write_request tp s) as [r1 s1] eqn:E1. pose proof (dsim_poll_write_request s H) as H1.
+    rewrite E1 in H1. cbn [snd] in H1.
+    destruct r1 as [u| | |a]; try exact H1;
+      (destruct (poll_write_cancel tp s1) as [r2 s2] eqn:E2;
+       pose proof (dsim_poll_write_cancel s1 H1) as H2; rewrite E2 in H2; cbn [snd] in H2;
+       destruct r2 as [u| | |a]; try exact H2;
+       (destruct (poll_expired s2) as [e s3] eqn:E3; pose proof (dsim_poll_expired s2 H2) as H3;
+        rewrite E3 in H3; cbn [snd] in H3; destruct e; [exact H3|];
+        first [ destruct (do_close tp s3) as [c s4] eqn:E4; pose proof (dsim_do_close s3 H3) as H4;
+                rewrite E4 in H4; destruct c; exact H4
+              | destruct (do_flush tp s3) as [f s4] eqn:E4; pose proof (dsim_do_flush s3 H3) as H4;
+                rewrite E4 in H4; destruct f; exact H4 ])).
+  Qed.
+
+  Lemma dsim_run_loop f s : dsim s -> dsim (snd (run_loop tp f s)).
+  Proof.
+    revert s. induction f as [|f IH]; intros s H; cbn [run_loop]; [exact H|].
+    destruct (pump_read tp s) as [rd s1] eqn:E1. pose proof (dsim_pump_read s H) as H1.
+    rewrite E1 in H1. cbn [snd] in H1.
+    destruct rd as [u| | |a]; try exact H1;
+      (destruct (pump_write tp s1) as [wr s2] eqn:E2; pose proof (dsim_pump_write s1 H1) as H2;
+       rewrite E2 in H2; cbn [snd] in H2;
+       destruct wr as [u'| | |a']; try exact H2; try (apply IH; exact H2);
+       destruct (Nat.eqb (length (inflight s2)) 0); try exact H2; try (apply IH; exact H2)).
+  Qed.
+
+  Lemma dsim_drain_loop f a s : dsim s -> dsim (snd (drain_loop f a s)).
+  Proof.
+    revert s. induction f as [|f IH]; intros s H; cbn [drain_loop]; [exact H|].
+    pose proof (sim_q_poll_recv _ _ (ds_sim _ H)) as R. pose proof (plog_q_poll_recv s) as L.
+    destruct (q_poll_recv s) as [r s1]. cbn [fst snd] in R, L.
+    destruct r as [q| |]; cbn [fst snd]; try (subst s1; exact H).
+    apply IH. eapply dsim_same_log; [exact H|rewrite plog_slot_send; exact L|].
+    apply sim_slot_send; [eapply sim_withq_drop; exact R|exact I].
+  Qed.
+
+  Lemma dsim_shut_down s a : dsim s -> dsim (snd (shut_down s a)).
+  Proof.
+    intro H. unfold shut_down. apply dsim_drain_loop.
+    eapply dsim_same_log; [exact H|rewrite plog_complete_all, plog_q_close; reflexivity|].
+    apply sim_complete_all, sim_q_close, H.
+  Qed.
+
+  Lemma dsim_poll_dispatch f s : dsim s -> dsim (snd (poll_dispatch tp f s)).
+  Proof.
+    intro H. unfold poll_dispatch. destruct (terminal s) as [a|].
+    - pose proof (dsim_shut_down s a H) as H1. destruct (shut_down s a) as [b s1]. destruct b; exact H1.
+    - pose proof (dsim_run_loop f s H) as H1. destruct (run_loop tp f s) as [r s1]. cbn [snd] in H1.
+      destruct r as [|a| |]; try exact H1.
+      assert (H2 : dsim (upd_term s1 (Some a))).
+      { eapply dsim_same_log; [exact H1|reflexivity|]. eapply sim_frame; [apply H1|reflexivity..]. }
+      pose proof (dsim_shut_down _ a H2) as H3.
+      destruct (shut_down (upd_term s1 (Some a)) a) as [b s3]. destruct b; exact H3.
+  Qed.
+End Dispatch.
+
+(* ------------------------------------------------------------------------------------------ *)
+(* 9. every op keeps the relation *)
+Section StepSim.
+  Context {T : Type} (tp : transport T cmsg resp) (fuel_of : @cstate T -> nat) (maxif : nat).
+  Notation cstate := (@cstate T).
+  Notation op := (@op T).
+  Implicit Types (s : cstate) (m : mst).
+
+  Lemma sim_init t0 qcap mif : sim m0 (init (T:=T) t0 qcap mif).
+  Proof.
+    assert (E : forall A (x : A) (i : nat), nth_error (@nil A) i = Some x -> False).
+    { intros A x [|i]; discriminate. }
+    constructor.
+    - constructor; cbn; try reflexivity; try (intros; contradiction); try constructor;
+        try (intros; exfalso; eapply E; eassumption).
+    - constructor; cbn; [intros w []|constructor].
+    - constructor; cbn; try (intros; contradiction); try constructor;
+        try (intros; exfalso; eapply E; eassumption).
+      intros id o H. discriminate.
+  Qed.
+
+  Lemma sim_drop_dispatch_op m s :
+    sim m s -> sim (rec_op (T:=T) m DropDispatch) (fst (step tp fuel_of s DropDispatch)).
+  Proof.
+    intro S. cbn [step fst rec_op].
+    assert (M : sim (upd_m m (m_now m) (m_calls m) (m_done m) (m_abandoned m) (m_closing m)
+                           (m_polled m) (m_disp m) true (m_handles m) (m_contract m)) s).
+    { eapply sim_meq; [exact S|constructor; reflexivity|reflexivity..]. }
+    destruct (dropped s); [exact M|]. clear S. revert M.
+    generalize (upd_m m (m_now m) (m_calls m) (m_done m) (m_abandoned m) (m_closing m)
+                      (m_polled m) (m_disp m) true (m_handles m) (m_contract m)). clear m. intros m S.
+    unfold drop_dispatch.
+    pose proof (sim_q_close _ _ S) as S1. set (s1 := q_close s) in *.
+    assert (F : forall {A} (f : A -> N) (l : list A) (x : cstate),
+              sim m x -> sim m (fold_left (fun acc q => slot_tx_drop acc (f q)) l x)).
+    { intros A f l. induction l as [|a r IH]; intros x Sx; cbn [fold_left]; [exact Sx|].
+      apply IH. eapply sim_sbc; [exact Sx|apply sbc_tx_drop, sbc_refl|reflexivity..]. }
+    pose proof (F _ q_id (queue s1) s1 S1) as S2.
+    set (s2 := fold_left (fun acc q => slot_tx_drop acc (q_id q)) (queue s1) s1) in *.
+    pose proof (F _ fst (inflight s2) s2 S2) as S3.
+    set (s3 := fold_left (fun acc p => slot_tx_drop acc (fst p)) (inflight s2) s2) in *.
+    destruct S3 as [C W D]. constructor.
+    - eapply simC_frame; [exact C|reflexivity..].
+    - constructor; cbn; [intros w []|constructor].
+    - constructor; cbn [calls queue inflight timers upd_fin upd_cancels upd_if upd_q]; try apply D;
+        try (intros; contradiction).
+      + constructor.
+      + intros i c Hc Hst. destruct (sd_staged _ _ D i c Hc Hst) as [_ H2]. split; [intros q []|exact H2].
+  Qed.
+
+  Lemma chk_obs_nil m (o : op) : chk_obs maxif o m [] = (vtrue, rec_op m o).
+  Proof. destruct o; reflexivity. Qed.
+
+  Lemma polled_rec_op_le m (o : op) :
+    (length (m_polled (rec_op m o)) <= S (length (m_polled m)))%nat.
+  Proof.
+    destruct o; cbn [rec_op]; try lia.
+    - destruct (nth_error (m_handles m) h) as [[|]|]; cbn; lia.
+    - destruct (nth_error (m_handles m) h) as [[|]|]; cbn; lia.
+    - cbn. lia.
+    - cbn [m_polled upd_m]. destruct (_ || _); [lia|rewrite app_length; cbn; lia].
+    - destruct (_ || _); cbn; lia.
+    - destruct (_ || _); [lia|]. destruct (mem_nat i (m_polled m)); cbn; lia.
+    - destruct (mem_nat i (m_closing m)); cbn; lia.
+    - cbn. lia.
+    - cbn. lia.
+  Qed.
+
+  (* the dispatch poll *)
+  Lemma sim_poll_dispatch_op m s :
+    sim m s ->
+    let '(s', os) := step tp fuel_of s PollDispatch in
+    match os with
+    | [] => s' = s
+    | [OCalls l; ODisp r; OGauge a b] =>
+      sim (mrun m l) s' /\ v18 (fst (chk_calls maxif m l)) = true
+    | _ => False
+    end.
+  Proof.
+    intro S. cbn [step]. destruct (finished s); [reflexivity|]. destruct (dropped s); [reflexivity|].
+    set (s0 := upd_tr s (tr s) (fused s) []).
+    assert (H0 : dsim maxif m s0).
+    { constructor; [|reflexivity]. unfold cur. cbn. eapply sim_frame; [exact S|reflexivity..]. }
+    pose proof (dsim_poll_dispatch tp maxif m (fuel_of s0) s0 H0) as H1.
+    destruct (poll_dispatch tp (fuel_of s0) s0) as [r s1]. cbn [snd] in H1.
+    unfold gauges. cbn [app]. destruct H1 as [H1 V1]. split; [|exact V1].
+    unfold cur in H1. destruct r as [d| |]; eapply sim_frame; try exact H1; reflexivity.
+  Qed.
+
+  Theorem sim_step m s (o : op) :
+    sim m s -> N.of_nat (S (length (m_polled m))) < two64 ->
+    sim (snd (chk_obs maxif o m (snd (step tp fuel_of s o)))) (fst (step tp fuel_of s o)).
+  Proof.
+    intros S Hw. destruct o.
+    - cbn [step snd]. rewrite chk_obs_nil. apply (sim_clone_handle tp fuel_of), S.
+    - cbn [step snd]. rewrite chk_obs_nil. apply (sim_drop_handle tp fuel_of), S.
+    - cbn [step snd]. rewrite chk_obs_nil. apply (sim_call tp fuel_of), S.
+    - cbn [step]. pose proof (sim_poll_call m s i) as P.
+      destruct (poll_call s i) as [r s']. specialize (P r s' S Hw eq_refl).
+      destruct r as [|o|]; cbn [fst snd chk_obs]; [exact P|apply P|exact P].
+    - change (snd (step tp fuel_of s (DropCall i))) with (@nil obs). rewrite chk_obs_nil.
+      apply (sim_drop_call_op tp fuel_of), S.
+    - change (snd (step tp fuel_of s (GuardClose i))) with (@nil obs). rewrite chk_obs_nil.
+      apply (sim_guard_close_op tp fuel_of), S.
+    - cbn [step snd]. rewrite chk_obs_nil. apply (sim_guard_cancel_op tp fuel_of), S.
+    - pose proof (sim_poll_dispatch_op m s S) as P.
+      destruct (step tp fuel_of s PollDispatch) as [s' os]. cbn [fst snd].
+      destruct os as [|[| |rc|l|rd|a1 b1] [|[| |rc2|l2|r|a2 b2] [|[| |rc3|l3|r3|a b] [|? ?]]]]; try contradiction.
+      + subst s'. cbn. exact S.
+      + destruct P as [P _]. cbn [chk_obs rec_op].
+        pose proof (chk_calls_snd maxif m l) as E. destruct (chk_calls maxif m l) as [v m2]. cbn [snd] in E.
+        subst m2. destruct (c_poll _ _ _) as [okc c2]. cbn [snd].
+        eapply sim_meq; [exact P|constructor; reflexivity|reflexivity..].
+    - change (snd (step tp fuel_of s DropDispatch)) with (@nil obs). rewrite chk_obs_nil.
+      apply sim_drop_dispatch_op, S.
+    - cbn [step snd]. rewrite chk_obs_nil. apply (sim_advance tp fuel_of), S.
+    - cbn [step snd]. rewrite chk_obs_nil. apply (sim_tr tp fuel_of), S.
+  Qed.
+
+  Lemma polled_chk_obs_le m (o : op) os :
+    (length (m_polled (snd (chk_obs maxif o m os))) <= S (length (m_polled m)))%nat.
+  Proof.
+    pose proof (polled_rec_op_le m o) as H.
+    unfold chk_obs.
+    destruct o; try (destruct os as [|? ?]; cbn [snd]; exact H).
+    - destruct os as [|[| |[|out|]| | |] [|? ?]]; cbn [snd]; try exact H.
+    - destruct os as [|[| |rc|l|rd|a1 b1] [|[| |rc2|l2|r|a2 b2] [|[| |rc3|l3|r3|a b] [|? ?]]]]; cbn [snd]; try exact H.
+      pose proof (chk_calls_snd maxif (rec_op (T:=T) m PollDispatch) l) as E.
+      destruct (chk_calls maxif (rec_op (T:=T) m PollDispatch) l) as [v m2]. cbn [snd] in E. subst m2.
+      destruct (c_poll _ _ _) as [okc c2]. cbn [snd m_polled upd_m]. rewrite mrun_polled. exact H.
+  Qed.
+End StepSim.
+
